@@ -30,7 +30,13 @@ EXERCISED = (
     "while a subscriber is still busy with the previous frame; the library's loggers at DEBUG "
     "level; AC numbers with gaps; text made of frame-prefix bytes; commands submitted while "
     "the link is down, up to a full buffer, including values no frame has room for "
-    "(infinite, NaN, huge)")
+    "(infinite, NaN, huge); one object re-initialised and the console then repeating earlier "
+    "frames byte for byte; AT5 records longer than documented and non-repeating data in front "
+    "of the records; retry policies with a lifetime of zero or less; units whose minimum and "
+    "maximum set-point coincide; names containing line feeds, tabs and blanks; subscribers that "
+    "end with CancelledError or TimeoutError; a second client receiving while the first one's "
+    "frame is incomplete; a second init() after one that gave up; unregistered message ids "
+    "through send_with_header()")
 
 T = """You are helping to evaluate a verification harness by producing a *subtle, realistic regression* in a Python library.
 
